@@ -62,6 +62,8 @@ class World:
             spec = gen_dt.gen_tree(rng, rng.choice([0, 0, 1, 2]))
             specs.append({'spec': spec, 'auto': rng.random() < 0.6, 'write': rng.random() < 0.5,
                           'default': gen_dt.complete(spec, gen_dt.gen_valid(spec, rng, True), rng)})
+            # a read-only persistent parameter without write method (an encoder reading kept over restarts)
+            specs[-1]['ro'] = not specs[-1]['write'] and rng.random() < 0.4
         return specs
 
     def make_class(self, specs):
@@ -71,7 +73,7 @@ class World:
             name = f'p{i}'
             ns[name] = P.PersistentParam('persistent parameter', self.B.build(s['spec']),
                                          default=gen_dt.to_py(s['spec'], s['default']),
-                                         persistent='auto' if s['auto'] else 'on', readonly=False)
+                                         persistent='auto' if s['auto'] else 'on', readonly=bool(s.get('ro')))
             if s['write']:
                 def w(self, value, _n=name):
                     self.writes.append((_n, value))
